@@ -107,7 +107,8 @@ Value& OpDIVExpression::value(Context& ctx) const
         Integer l = *a2.integer();
         if (l == 0)
           throw RuntimeError(EXC_RT_DIVIDE_BY_ZERO);
-        Value val(Integer(*a1.integer() / l));
+        /* dividing by -1 negates, wrapping around for the lowest integer */
+        Value val(l == -1 ? (Integer)(0 - (uint64_t)(*a1.integer())) : Integer(*a1.integer() / l));
         return LVAL2(val, a1, a2);
       }
       case Type::IMAGINARY:
